@@ -181,6 +181,8 @@ def run_unit(unit, tier, seed, acc):
         acc.classes["pair"] = acc.classes.get("pair", 0) + k
     elif kind == "accessors":
         ns = names(unit["depth"], LEAVES + IDX_LEAVES) + ["/"]
+        # a leaf whose text is also (part of) one of its folder names: only the LAST segment is the leaf
+        ns += ["/ppt/ppt", "/slides/slide", "/ppt/layout/layout", "/a/a", "/slide1.xml/slide1.xml", "/x.xml/y/x.xml", "/noext/noext", "/UP/UP.xml", "/_rels/_rels", "/a.b/a.b/a.b"]
         for P in ns:
             u = PackURI(P)
             exp = {
